@@ -6,7 +6,7 @@ are delivered in order, and a new link starts with an empty receive queue.
 
 State machine `step : Dev → Sys → Op → Sys × List Out`, `Sys` = the `Crazyflie` object `S` + the wrapper `Wrap`.
 The environment/user operations are
-  open found | deliver | work | err | arm | close | syncOpen found | syncClose
+  open drv | deliver | work | err | arm | close | syncOpen drv | syncClose    (drv = missing | ok | failing)
 (`deliver` = the dispatcher thread hands the next received packet to the callbacks, `work` = one iteration of the
 first ready worker thread (`_ParamUpdater.run`, `_ExtendedTypeFetcher.run`), `err` = the link driver reports an
 error from its own thread, `arm` = the next transmission reports a link error from the *sending* thread).
@@ -31,6 +31,12 @@ def St.code : St → Nat
   | .disc => Gen.C02.stDisconnected
   | .init => Gen.C02.stInitialized
   | .conn => Gen.C02.stConnected
+
+/-- what `cflib.crtp.get_link_driver` does for the URI: no usable driver (or it raises) / a working driver / a driver
+whose link fails while `connect()` is still running: the error callback is invoked (by the driver itself or by
+its thread) before `open_link` has stored the driver in `cf.link` -/
+inductive Drv | missing | ok | failing
+  deriving DecidableEq, Repr, Inhabited
 
 /-- the public `Caller`s whose calls are observed -/
 inductive Ev | requested | failed | established | connected | fully | disconnected | lost | discLinkError
@@ -105,6 +111,7 @@ structure S where
   connTs : Bool := false                -- `connected_ts is not None` (`is_connected()`)
   logGot : Nat := 0                     -- ghost: log TOC entries received in this attempt
   extGot : Nat := 0                     -- ghost: extended types received in this attempt
+  dead : Bool := false                  -- `cf.link` is a driver that already reported its error (during connect())
   fixD21 : Bool := Gen.C02.extFetcherAbortsOnDisconnect   -- constant: the code has repair D21 (from the source)
   deriving DecidableEq, Repr, Inhabited
 
@@ -157,13 +164,13 @@ def callAll : List String → S → R
 
 /-- `Crazyflie._link_error_cb` -/
 def linkErrorCb (s : S) : R :=
-  let s1 := { s with link := false, inq := [], stage := .idle }
+  let s1 := { s with link := false, dead := false, inq := [], stage := .idle }
   let r := callAll (errCallers s.st.code) s1
   ({ r.1 with st := .disc }, Out.linkFailed :: r.2)
 
 /-- `Crazyflie.send_packet(pk)`; `reply` = what the device will answer (none for set-points) -/
 def send (reply : Option Pkt) (s : S) : R :=
-  if ¬ s.link then pureS s
+  if ¬ s.link ∨ s.dead then pureS s
   else if s.armed then linkErrorCb { s with armed := false }
   else pureS { s with inq := s.inq ++ reply.toList }
 
@@ -289,18 +296,24 @@ def work (s : S) : R :=
 
 /-! ### user operations -/
 
-/-- `Crazyflie.open_link`; `found = false`: no usable driver (or the driver raised) -/
-def openLink (found : Bool) (s : S) : R :=
+/-- `Crazyflie.open_link` -/
+def openLink (drv : Drv) (s : S) : R :=
   -- connection_requested: `Param._connection_requested` resets is_updated / toc / values
   emit .requested { s with isUpdated := false, parToc := 0, vals := [], logGot := 0, extGot := 0 } >>> fun s =>
     let s := { s with st := .init }
-    if ¬ found then emit .failed { s with link := false }
-    else send (some .src) { s with link := true, inq := [], initCb := true, stage := .src }
+    match drv with
+    | .missing => emit .failed { s with link := false, dead := false, stage := .idle }
+    | .ok => send (some .src) { s with link := true, dead := false, inq := [], initCb := true, stage := .src }
+    | .failing =>
+        -- `_link_error_cb` runs while get_link_driver() has not returned (cf.link is still the old value); then the
+        -- driver is stored and the set-up is started on the dead link
+        linkErrorCb s >>> fun s =>
+          send (some .src) { s with link := true, dead := true, inq := [], initCb := true, stage := .src }
 
 /-- `Crazyflie.close_link` -/
 def closeLink (s : S) : R :=
   send none s >>> fun s =>
-    disconnectedCall { s with link := false, inq := [] } >>> fun s => pureS { s with st := .disc }
+    disconnectedCall { s with link := false, dead := false, inq := [] } >>> fun s => pureS { s with st := .disc }
 
 /-! ### SyncCrazyflie -/
 
@@ -354,7 +367,7 @@ structure Sys where
 def Sys.init : Sys := {}
 
 inductive Op
-  | open (found : Bool) | deliver | work | err | arm | close | syncOpen (found : Bool) | syncClose
+  | open (drv : Drv) | deliver | work | err | arm | close | syncOpen (drv : Drv) | syncClose
   deriving DecidableEq, Repr, Inhabited
 
 /-- an operation on the `Crazyflie` object; the wrapper's callbacks see the calls, then a blocked call may resume -/
@@ -394,13 +407,14 @@ def run (d : Dev) : Sys → List Op → Sys × List (Op × List Out)
 
 /-- what a well-behaved user / environment does (everything else is outside the property):
 one user thread (no user call while a SyncCrazyflie call is blocked, except a plain `close_link` from another
-thread), a link is opened only when none is open, and only an existing driver reports errors. -/
+thread), a link is opened only when none is open (or the one that is there is dead), and only a live driver reports
+errors (a driver reports once). -/
 def allowed (s : Sys) : Op → Bool
-  | .open _ => ¬ s.c.link ∧ ¬ s.w.waitOpen ∧ ¬ s.w.waitClose
-  | .syncOpen _ => (¬ s.c.link ∨ s.w.isOpen) ∧ ¬ s.w.waitOpen ∧ ¬ s.w.waitClose
+  | .open _ => (¬ s.c.link ∨ s.c.dead) ∧ ¬ s.w.waitOpen ∧ ¬ s.w.waitClose
+  | .syncOpen _ => ((¬ s.c.link ∨ s.c.dead) ∨ s.w.isOpen) ∧ ¬ s.w.waitOpen ∧ ¬ s.w.waitClose
   | .syncClose => ¬ s.w.waitOpen ∧ ¬ s.w.waitClose
-  | .err => s.c.link
-  | .arm => s.c.link
+  | .err => s.c.link ∧ ¬ s.c.dead
+  | .arm => s.c.link ∧ ¬ s.c.dead
   | .close => ¬ s.w.waitClose
   | .deliver => true
   | .work => true
